@@ -824,6 +824,8 @@ where
         let txid = tx_version.txid;
         let incarnation = tx_version.incarnation;
         #[cfg(grevm_verif)]
+        crate::verif::p2("val_enter", txid as i64, incarnation as i64);
+        #[cfg(grevm_verif)]
         crate::verif::before_lock(&self.tx_states[txid]);
         let mut tx_state = self.tx_states[txid].lock();
         #[cfg(grevm_verif)]
